@@ -91,7 +91,7 @@ EXTRA = {
  "C05": " Numeric ties in rulegen templates, `-o FILE` modes with a pre-existing file, stage 'environment' (TZ incl. POSIX strings, HOME, LANG, cwd; stderr compared too). Batches also without --structured (-o json, -o yaml, console -p): the output over 2-3 data files is the outputs of the files on their own.",
  "C06": " Non-UTF-8 and comment-only rules files, same base names in a directory each, rule names defined twice with mismatching expectations; evaluation errors by construction (11 shapes: inside when blocks, query blocks, filters, rule conditions, referenced and parameterised rules); 1-2 further test files per rules file walked with -a / -m.",
  "C07": " Stages 'multi-data' and 'duplicate-names'; multi-file cases with equal base names; values with markup and control characters (the JUnit text must consist of XML 1.0 characters; character data and attribute values must unescape). Stage 'entry-points': ten texts whose reading is not obvious decided alike through file, stdin and --payload.",
- "C08": " Stage 'framing' (comments / blank lines around a text do not decide acceptance), stage 'test-specs' (2-3 spec files of 7 kinds x 4 formats), generated self-reference cycles, key filters whose right-hand side is a variable resolving to no / one / several values, huge list indices, float literals that overflow; Terraform-plan-shaped failing clauses; long multi-byte values through 11 output paths of the real binary. A child that has used 60 CPU seconds of its 90 s is a hang (violation); a watchdog hit without that is inconclusive.",
+ "C08": " Stage 'framing' (comments / blank lines around a text do not decide acceptance), stage 'test-specs' (2-3 spec files of 7 kinds x 4 formats), generated self-reference cycles, key filters whose right-hand side is a variable resolving to no / one / several values, huge list indices, float literals that overflow; Terraform-plan-shaped failing clauses; long multi-byte values through 11 output paths of the real binary. A child that has used 30 CPU seconds or more when the 90 s watchdog fires is a hang (violation); a watchdog hit without that is inconclusive.",
  "C09": " Cause paths: every message listed under a rule belongs to a clause that failed on a FAIL path of that rule, and every such clause with a message is listed (two-way); a nested `Rule` entry (a parameterised call, also from within a parameterised rule) carries the message written at a call of exactly that rule (map taken from the generated program). The truth record must itself satisfy C02's laws.",
  "C11": " Negatives include tagged scalars in key position, duplicate keys and multi-document streams; full-precision floats (53-bit mantissas over powers of ten) written in several spellings; NUL and other control characters in strings; stage 'number-spellings' (14 spellings x JSON / YAML x every loader incl. test files named .json / .yaml / .JSON / .jsn).",
  "C12": " JUnit: each <testsuite> of a batch equals the one of validating that data file alone (times masked) and the totals are the sums. test: the one-case files as a directory (-a / -m / default x 4 formats) fail iff some file fails alone.",
